@@ -57,6 +57,9 @@ CHECKS = {
  "C15": ("exhaustive enumeration of the finite TLS configuration matrix under generated transport schedules (property-based testing over schedules), real rustls handshakes over the in-memory pipe, independent trust model as oracle",
          "102 cells (client roots x domain source x server ALPN x assume_http2 x server certificate; https without TLS config; client identity x server client-auth for tonic and raw rustls clients) each under two fixed and further random pipe schedules; the call must succeed iff chain, name, protocol and client-auth conditions hold; otherwise no request reaches a handler/peer and the client never writes plaintext; peer_certs exposed iff verified.",
          "Fixture PKI (EC, valid 2020-2126) generated with the image's openssl and committed; built as a second binary with tonic/tls-ring so the other checks keep the baseline feature set.", "4/C15"),
+ "C08": ("model-based property testing (API histories against a reference ordered multimap) plus wire scenarios through generated client/server over a mock transport",
+         "Histories (<=25 ops) of insert/append/remove/entry operations with typed, &str and String keys in lower/upper/mixed case against a HeaderMap-semantics model, all read accessors and iterators compared after every step (kind separation, base64 padding indifference, hash/equality); sending paths (generated client into a recording transport, generated server responses/trailers/statuses) judged for presence, order, base64 decodability and reserved-name forgery; receiving paths with padded and unpadded base64 read back through Request/Response/Status/Streaming metadata.",
+         "Order between different names is not compared; wire padding is labelled only; a name present in both headers and trailers of one unary response is observed but not judged (outside what a tonic handler can attach).", "4/C08"),
 }
 NOT_YET = {}
 def main():
